@@ -102,6 +102,18 @@ def reference_convolution(truth, filt, nu_grid=None):
     return flux, err, R
 
 
+def _to_mjy(unit_string):
+    if unit_string in (None, ''):
+        return 1.0
+    try:
+        return float((1.0 * u.Unit(unit_string)).to(u.mJy).value)
+    except Exception:
+        try:
+            return float((1.0 * u.Unit(unit_string.lower().replace('mjy', 'mJy').replace('ujy', 'uJy').replace('jy', 'Jy') if unit_string.lower() in ('mjy', 'jy', 'ujy') else unit_string)).to(u.mJy).value)
+        except Exception:
+            return float('nan')          # an unreadable unit: every comparison fails, which is the right verdict
+
+
 def read_convolved_plain(path):
     """read a convolved-flux file with plain astropy.io.fits"""
     if not os.path.exists(path) and os.path.exists(path + '.gz'):
@@ -115,6 +127,10 @@ def read_convolved_plain(path):
         if flux.ndim == 1:
             flux, err = flux[:, None], err[:, None]
         funit = h['CONVOLVED FLUXES'].columns['TOTAL_FLUX'].unit
+        eunit = h['CONVOLVED FLUXES'].columns['TOTAL_FLUX_ERR'].unit
+        # values are returned in mJy whatever unit the file declares (a missing unit means mJy, as for the package's reader)
+        flux = flux * _to_mjy(funit)
+        err = err * _to_mjy(eunit)
         try:
             ap = np.array(h['APERTURES'].data['APERTURE'], float)
             apunit = h['APERTURES'].columns['APERTURE'].unit
